@@ -126,6 +126,95 @@ macro("const_add", 1, lambda a, p: a[0] + F32(p["k"]),
       lambda o, mv, a, p: o.add(a[0], o.const(np.array(p["k"], F32))),
       lambda mv, p: ["Constant", "Add"], params=lambda rng: {"k": rng.choice([0.5, -1.5, 2.0])},
       versioned=True)
+# ---- operators whose schema changed between opsets 17 and 21 and that have no short numpy meaning here:
+# the reference is the operator at the version it was written in, i.e. the macro alone, built from its own
+# module (a single-version model, nothing to adapt) and run by onnxruntime (`ort_ref`); the operators it
+# emits are read off that single-version model.
+def I64(*a):
+    return np.array(a, np.int64)
+
+
+def _r4(o, x):
+    return o.reshape(x, o.const(I64(1, 1, 2, 3)))
+
+
+def _r2(o, x):
+    return o.reshape(x, o.const(I64(2, 3)))
+
+
+GRID = np.array([[[[-0.6, -0.5], [0.1, -0.4], [0.7, -0.6]], [[-0.5, 0.5], [0.0, 0.4], [0.6, 0.3]]]], F32)
+
+ORT_MACROS = {
+    "grid_sample": lambda o, mv, a, p: _r2(o, o.grid_sample(_r4(o, a[0]), o.const(GRID))),
+    "resize": lambda o, mv, a, p: _r2(o, o.slice(
+        o.resize(_r4(o, a[0]), None, o.const(np.array([1, 1, 2, 2], F32)), mode="nearest"),
+        o.const(I64(0, 0)), o.const(I64(4, 6)), o.const(I64(2, 3)), o.const(I64(2, 2)))),
+    "avg_pool": lambda o, mv, a, p: _r2(o, o.average_pool(_r4(o, a[0]), kernel_shape=[1, 2], pads=[0, 0, 0, 1],
+                                                          count_include_pad=1)),
+    "lp_pool": lambda o, mv, a, p: _r2(o, o.lp_pool(_r4(o, a[0]), kernel_shape=[1, 2], pads=[0, 0, 0, 1])),
+    "dft": lambda o, mv, a, p: o.squeeze(o.slice(
+        (o.dft(o.reshape(a[0], o.const(I64(2, 3, 1))), axis=1) if mv < 20
+         else o.dft(o.reshape(a[0], o.const(I64(2, 3, 1))), None, o.const(np.array(1, np.int64)))),
+        o.const(I64(0)), o.const(I64(1)), o.const(I64(2))), o.const(I64(2))),
+    "equal": lambda o, mv, a, p: o.add(a[0], o.cast(o.equal(a[0], o.abs(a[0])), to=np.float32)),
+    "isinf": lambda o, mv, a, p: o.where(o.isinf(a[0]), o.const(np.array(0, F32)), a[0]),
+    "cast_like": lambda o, mv, a, p: o.cast(o.cast_like(a[0], o.const(np.array(1, np.float64))), to=np.float32),
+    "size": lambda o, mv, a, p: o.add(a[0], o.cast(o.size(a[0]), to=np.float32)),
+    "rlogsum": lambda o, mv, a, p: o.sub(a[0], (
+        o.reduce_log_sum(o.add(o.abs(a[0]), o.const(np.array(1, F32))), axes=[1], keepdims=1) if mv == 17
+        else o.reduce_log_sum(o.add(o.abs(a[0]), o.const(np.array(1, F32))), o.const(I64(1)), keepdims=1))),
+    "rlse": lambda o, mv, a, p: o.sub(a[0], (
+        o.reduce_log_sum_exp(o.tanh(a[0]), axes=[0], keepdims=1) if mv == 17
+        else o.reduce_log_sum_exp(o.tanh(a[0]), o.const(I64(0)), keepdims=1))),
+    "scatter_el": lambda o, mv, a, p: o.scatter_elements(a[0], o.const(np.array([[0, 1, 0]], np.int64)),
+                                                         o.const(np.array([[9., 8, 7]], F32)), axis=0),
+    "scatter_nd": lambda o, mv, a, p: o.scatter_nd(a[0], o.const(np.array([[1]], np.int64)),
+                                                   o.const(np.array([[9., 8, 7]], F32))),
+    "qdq": lambda o, mv, a, p: o.dequantize_linear(
+        o.quantize_linear(a[0], o.const(np.array(0.5, F32)), o.const(np.array(10, np.uint8))),
+        o.const(np.array(0.5, F32)), o.const(np.array(10, np.uint8))),
+    "optional": lambda o, mv, a, p: o.optional_get_element(o.optional(a[0])),
+}
+
+_SINGLE: dict = {}
+
+
+def single(op, mv, p):
+    """The macro alone, built from module `mv` (cached): model, emitted operators, lazily a session."""
+    key = (op, mv, repr(sorted((p or {}).items())))
+    if key not in _SINGLE:
+        import warnings
+
+        from spox import Tensor, argument, build
+
+        with warnings.catch_warnings():
+            warnings.simplefilter("ignore")
+            mac = MACROS[op]
+            xs = [argument(Tensor(np.float32, (2, 3))) for _ in range(mac["arity"])]
+            y = mac["build"](ops(mv), mv, xs, p or {})
+            m = build({f"a{i}": v for i, v in enumerate(xs)}, {"r": y})
+        names = [n.op_type for n in m.graph.node if "Introduce" not in n.name]
+        _SINGLE[key] = {"model": m, "ops": names, "sess": None}
+    return _SINGLE[key]
+
+
+def ort_reference(op, mv, p, args):
+    import onnxruntime as ort
+
+    ent = single(op, mv, p)
+    if ent["sess"] is None:
+        so = ort.SessionOptions()
+        so.log_severity_level = 4
+        so.intra_op_num_threads = 1
+        so.inter_op_num_threads = 1
+        ent["sess"] = ort.InferenceSession(ent["model"].SerializeToString(), so, providers=["CPUExecutionProvider"])
+    return ent["sess"].run(None, {f"a{i}": np.ascontiguousarray(v, dtype=F32) for i, v in enumerate(args)})[0]
+
+
+for _n, _b in ORT_MACROS.items():
+    macro(_n, 1, (lambda n: lambda a, p: None)(_n), _b, (lambda n: lambda mv, p: single(n, mv, p)["ops"])(_n),
+          versioned=True, ort_ref=True)
+
 # static rank made unknown / restored (the input "s" holds [2, 3] at run time)
 macro("dyn", 1, lambda a, p: a[0], lambda o, mv, a, p: o.reshape(a[0], a[1]),
       lambda mv, p: ["Reshape"], taints=True, needs_s=True)
@@ -233,6 +322,17 @@ class Realiser:
                 return f
 
             return o.if_(cond, then_branch=mk(st["then"]), else_branch=mk(st["else"]))[0]
+        if op == "loop":  # two iterations over one state; the body may use outer values
+            o = ops(st["mv"])
+            blk, pid = st["body"], st["param"]
+
+            def body(_i, _c, state):
+                e = dict(env)
+                e[pid] = state
+                self.block(blk["nodes"], e)
+                return [o.const(np.array(True)), e[blk["out"]]]
+
+            return o.loop(o.const(np.array(2, np.int64)), None, [env[st["args"][0]]], body=body)[0]
         if op == "inline":
             from spox import inline
 
@@ -318,6 +418,14 @@ def np_stmt(st, env, c):
         e = dict(env)
         np_block(blk["nodes"], e, c)
         return e[blk["out"]]
+    if op == "loop":
+        state = env[st["args"][0]]
+        for _ in range(2):
+            e = dict(env)
+            e[st["param"]] = state
+            np_block(st["body"]["nodes"], e, c)
+            state = e[st["body"]["out"]]
+        return state
     if op == "inline":
         md = st["model"]
         a = env[st["args"][0]]
@@ -334,7 +442,10 @@ def np_stmt(st, env, c):
         return e[st["body"]["out"]]
     if op in ML_MACROS:
         return ML_MACROS[op]["np"]([env[a] for a in st["args"]], st.get("p", {})).astype(F32)
-    r = MACROS[op]["np"]([env[a] for a in st["args"]], st.get("p", {}))
+    if MACROS[op].get("ort_ref"):
+        r = ort_reference(op, st["mv"], st.get("p", {}), [env[a] for a in st["args"]])
+    else:
+        r = MACROS[op]["np"]([env[a] for a in st["args"]], st.get("p", {}))
     return np.asarray(r, dtype=F32)
 
 
@@ -361,6 +472,8 @@ def emitted(st) -> list[tuple[str, str, int]]:
         if st["cond"] in ("t", "f"):
             out.append(("", "Constant", since("", "Constant", st["mv"])))
         return out
+    if op == "loop":
+        return [("", "Loop", since("", "Loop", st["mv"])), ("", "Constant", since("", "Constant", st["mv"]))]
     if op in ("inline", "func"):
         return []
     if op in ML_MACROS:
@@ -374,7 +487,7 @@ def emitted(st) -> list[tuple[str, str, int]]:
 def sub_blocks(st):
     if st["op"] == "if":
         return [st["then"], st["else"]]
-    if st["op"] == "func":
+    if st["op"] in ("func", "loop"):
         return [st["body"]]
     return []
 
@@ -428,6 +541,9 @@ def walk(nodes, depth=0, in_func=False, path=()):
         if st["op"] == "if":
             for b in (st["then"], st["else"]):
                 yield from walk(b["nodes"], depth + 1, in_func, path + ((st["id"], id(b), b),))
+        if st["op"] == "loop":
+            b = st["body"]
+            yield from walk(b["nodes"], depth + 1, in_func, path + ((st["id"], id(b), b),))
         if st["op"] == "func":
             yield from walk(st["body"]["nodes"], depth, True, path)
 
@@ -446,6 +562,11 @@ def tainted_ids(prog) -> set:
                 t |= (a | b)
                 if st["then"]["out"] in a or st["else"]["out"] in b:
                     t.add(st["id"])
+            elif op == "loop":
+                a = set(t)
+                blk(st["body"]["nodes"], a)
+                t |= a
+                t.add(st["id"])  # spox reports a Loop's carried output without a shape unless it is provably stable
             elif op in ("inline",) or op in ML_MACROS:
                 pass  # declared / inferred output types are concrete
             elif op == "func":
@@ -519,6 +640,13 @@ class Gen:
         self.n = 0
         self.versions = rng.choice([[17, 18], [17, 19], [17, 21], [17, 18, 19, 20, 21], [18, 20], [17],
                                     [19, 21], [17, 18, 21], [17, 20]])
+        # sometimes only function bodies are written against the newest module (the model's maximum
+        # is then required by a function body alone)
+        self.func_versions = None
+        if len(self.versions) >= 2 and rng.random() < 0.3:
+            hi = max(self.versions)
+            self.func_versions = [hi]
+            self.versions = [v for v in self.versions if v < hi]
 
     def fresh(self):
         self.n += 1
@@ -569,24 +697,45 @@ class Gen:
                       "then": tb, "else": eb}
                 if tt or et:
                     tainted.add(st["id"])
-            elif r < 0.24 and self.allow_inline and not in_func:
+            elif r < 0.20 and depth < self.max_depth and self.size >= 2:
+                pid = self.fresh()
+                save_dyn = self.allow_dyn
+                self.allow_dyn = False
+                clean_pool = [p_ for p_ in pool if p_ not in tainted]
+                body, _bt = self.block(clean_pool + [pid, pid], set(), depth + 1, 0, in_func)
+                self.allow_dyn = save_dyn
+                st = {"id": self.fresh(), "op": "loop", "mv": self.mv(), "param": pid, "body": body,
+                      "args": [rng.choice(clean_pool or ["x"])]}
+                tainted.add(st["id"])
+            elif r < 0.27 and self.allow_inline and not in_func:
                 st = {"id": self.fresh(), "op": "inline", "model": self.model_desc(),
                       "args": [rng.choice(pool)]}
-            elif r < 0.30 and self.allow_func and depth == 0 and not in_func:
+            elif r < 0.33 and self.allow_func and depth == 0 and not in_func:
                 np_ = rng.randrange(1, 3)
                 params = [self.fresh() for _ in range(np_)]
                 save = self.max_depth
                 self.max_depth = min(self.max_depth, 2)
+                save_v = self.versions
+                if self.func_versions:
+                    self.versions = self.func_versions
                 body, bt = self.block(params, set(), 1, 0, in_func=True)
+                if self.func_versions and self.func_versions[0] in PIN:
+                    op_, mv_ = PIN[self.func_versions[0]]
+                    pid = self.fresh()
+                    body["nodes"].append({"id": pid, "op": op_, "mv": mv_, "args": [body["out"]]})
+                    body["out"] = pid
+                self.versions = save_v
                 self.max_depth = save
                 st = {"id": self.fresh(), "op": "func", "name": f"f{next(_uid)}",
                       "domain": rng.choice(["spox.verif", "verif.other"]), "params": params,
                       "body": body, "args": [rng.choice([p for p in pool if p not in tainted] or ["x"])
                                              for _ in range(np_)]}
-            elif r < 0.36 and self.allow_ml:
+                if bt:
+                    tainted.add(st["id"])
+            elif r < 0.39 and self.allow_ml:
                 st = {"id": self.fresh(), "op": rng.choice(list(ML_MACROS)), "mv": rng.choice(ML_VERSIONS),
                       "dv": self.mv(), "args": [rng.choice([p for p in pool if p not in tainted] or ["x"])]}
-            elif r < 0.42 and self.allow_dyn and not in_func:
+            elif r < 0.45 and self.allow_dyn and not in_func:
                 src = rng.choice([p for p in pool if p not in tainted] or ["x"])
                 st = {"id": self.fresh(), "op": "dyn", "mv": self.mv(), "args": [src]}
                 tainted.add(st["id"])
@@ -709,6 +858,11 @@ def prune(prog):
                 b = st["body"]
                 inner = {b["out"]}
                 st["body"] = {"nodes": prune_nodes(b["nodes"], inner), "out": b["out"]}
+            elif st["op"] == "loop":
+                b = st["body"]
+                inner = {b["out"]}
+                st["body"] = {"nodes": prune_nodes(b["nodes"], inner), "out": b["out"]}
+                needed |= inner - {st["param"]}
             kept.append(st)
         kept.reverse()
         return kept
@@ -723,6 +877,8 @@ def _refs(blk, sid) -> bool:
         if sid in st.get("args", []):
             return True
         if st["op"] == "if" and (_refs(st["then"], sid) or _refs(st["else"], sid)):
+            return True
+        if st["op"] == "loop" and _refs(st["body"], sid):
             return True
     return False
 
@@ -743,6 +899,7 @@ def sink(prog):
                 later = nodes[i + 1:]
                 direct = any(sid in s.get("args", []) for s in later)
                 using = [s[k] for s in later if s["op"] == "if" for k in ("then", "else") if _refs(s[k], sid)]
+                using += [s["body"] for s in later if s["op"] == "loop" and _refs(s["body"], sid)]
                 if not direct and len(using) == 1:
                     using[0]["nodes"].insert(0, st)
                     del nodes[i]
@@ -751,7 +908,7 @@ def sink(prog):
             if st["op"] == "if":
                 for k in ("then", "else"):
                     process(st[k]["nodes"], {st[k]["out"]})
-            elif st["op"] == "func":
+            elif st["op"] in ("func", "loop"):
                 process(st["body"]["nodes"], {st["body"]["out"]})
 
     process(prog["nodes"], set(prog["outs"]))
